@@ -19,10 +19,12 @@ from isomc import impl, mtext, recur, alphabets as A, refmodel as M
 ID = "C19"
 TITLE = "The command line prints exactly what the library computes"
 
-OFFSET_LISTS = [[], ["P1D"], ["-PT1H"], ["P1M", "-P1D"], ["-P1Y"], ["PT0.5H"], ["P1W", "PT36H"], ["-P1M"]]
+OFFSET_LISTS = [[], ["P1D"], ["-PT1H"], ["P1M", "-P1D"], ["-P1Y"], ["PT0.5H"], ["P1W", "PT36H"], ["-P1M"], ["-P1W"],
+                ["PT3M"]]
 VECTORS = [
     ({"year": 2015, "month": 12, "day": 31, "doy": 365, "week": 53, "wday": 4}, {"h": 23, "m": 59, "s": 59, "frac": "5"}),
     ({"year": 2016, "month": 2, "day": 29, "doy": 60, "week": 9, "wday": 1}, {"h": 6, "m": 31, "s": 1, "frac": "25"}),
+    ({"year": 2001, "month": 3, "day": 1, "doy": 60, "week": 9, "wday": 4}, {"h": 12, "m": 0, "s": 7, "frac": "05"}),
 ]
 ZVALS = {"Z": {}, "hh": {"zsign": "-", "zh": 5}, "hhmm": {"zsign": "+", "zh": 5, "zm": 45}, "hh:mm": {"zsign": "-", "zh": 0, "zm": 30}}
 SEAM = 330   # system UTC offset (minutes) the library sees
@@ -201,7 +203,9 @@ def items(ned=2):
                 for zname, (ztoks, zkind) in zforms.items():
                     if not mtext.compatible(dkind, tkind, zkind):
                         continue
-                    if vi == 1 and zname in ("hh",):
+                    if vi >= 1 and zname in ("hh",):
+                        continue
+                    if vi == 2 and zname == "hhmm":
                         continue
                     yield (dtext + "T" + ttext + mtext.render(ztoks, ZVALS[zname]), dname,
                            dtoks + [mtext.lit("T")] + ttoks + ztoks, rep, cls, dv, tname, tv, zname)
@@ -370,7 +374,18 @@ def check_diff(ctx, kind, a, b, off1, off2, total):
     ctx.outcome("diff_sign", (delta > 0) - (delta < 0))
 
 
-REC_ITEMS = ["R/2015-12-31T23:00-05:30/P1D", "R5/20160131T0000Z/P1M", "R3/P1M/2016-01-31T00Z", "R/PT12H/2016-02-29T00:00:00Z",
+# exact-interval items: text -> (direction, anchor text, interval seconds, repetitions or None)
+REC_EXACT = {
+    "R/2015-12-31T23:00-05:30/P1D": ("fwd", "2015-12-31T23:00-05:30", 86400, None),
+    "R/PT12H/2016-02-29T00:00:00Z": ("back", "2016-02-29T00:00:00Z", 43200, None),
+    "R12/2016-02-29T12Z/PT36H": ("fwd", "2016-02-29T12Z", 129600, 12),
+    "R/+002015-12-31T00Z/P1W": ("fwd", "+002015-12-31T00Z", 604800, None),
+    "R3/2016-01-31T00Z/P1W": ("fwd", "2016-01-31T00Z", 604800, 3),
+    "R4/P1W/2016-03-01T06:00:00+01:00": ("end", "2016-03-01T06:00:00+01:00", 604800, 4),
+    "R/P2W/2016-03-01T00Z": ("back", "2016-03-01T00Z", 1209600, None),
+}
+REC_ITEMS = ["R3/2016-01-31T00Z/P1W", "R4/P1W/2016-03-01T06:00:00+01:00", "R/P2W/2016-03-01T00Z",
+             "R/2015-12-31T23:00-05:30/P1D", "R5/20160131T0000Z/P1M", "R3/P1M/2016-01-31T00Z", "R/PT12H/2016-02-29T00:00:00Z",
              "R2/2015-W53-4T06Z/2016-001T06Z", "R1/P1D/2016-366", "R/2016/2017", "R12/2016-02-29T12Z/PT36H", "R/P1Y/2016-02-29",
              "R/+002015-12-31T00Z/P1W"]
 
@@ -404,6 +419,25 @@ def check_recurrence(ctx, kind, text, nmax):
     if got != want:
         ctx.violation("recurrence_points", sig, case, want, got)
     ctx.outcome("lines", len(got))
+    # for exact intervals the printed points are also judged by M: anchor + k * interval, in order
+    spec = REC_EXACT.get(text)
+    if spec is not None and kind == "greg":
+        how, anchor_text, step, reps = spec
+        av = diff_value(kind, anchor_text)
+        a_inst = av[1] - av[2] * 60
+        expect_n = n if reps is None else min(n, reps)
+        if how == "fwd":
+            insts = [a_inst + k * step for k in range(expect_n)]
+        elif how == "back":
+            insts = [a_inst - k * step for k in range(expect_n)]
+        else:  # bounded duration/end, printed ascending
+            insts = [a_inst - (reps - 1 - k) * step for k in range(expect_n)]
+        got_i = []
+        for ln in got:
+            v = diff_value(kind, ln)
+            got_i.append(None if v in (None, "invalid") else v[1] - v[2] * 60)
+        if got_i != insts:
+            ctx.violation("recurrence_instants", sig, case, [str(x) for x in insts], {"lines": got, "instants": [str(x) for x in got_i]})
 
 
 def run_unit(unit, ctx):
